@@ -126,6 +126,11 @@ def message(rng, K):
         b = bytes(rng.choice(alpha) for _ in range(blen))
         if b[-1:] == b' ' and rng.random() < 0.9:
             b = b[:-1] + b'x'
+        if q and blen >= 3 and rng.random() < 0.15:
+            # white space other than a blank inside the quotes: a fold or a TAB (seeded change c06-m10 accepted it, and
+            # the boundary lines are written without the line-end repair of send_plain())
+            k = rng.randrange(1, blen - 1)
+            b = b[:k] + rng.choice([b'\n ', b'\r\n ', b'\t', b'\r ', b'\n']) + b[k + 1:]
         ct = b'multipart/' + rng.choice([b'mixed', b'alternative']) + b';' + rng.choice([b' ', b'\r\n ', b'', b' (c) ']) + \
             rng.choice([b'boundary=', b'Boundary=']) + (b'"' + b + b'"' if q else b)
         if rng.random() < 0.2:
